@@ -1886,6 +1886,14 @@ func (query *Query) exec() (result any, err error) {
 	if err != nil {
 		return nil, err
 	}
+	if query.distinct || len(query.orderByDefinition) != 0 {
+		// DISTINCT and ORDER BY compare column values: the columns ASYNC calls and
+		// AWAIT fill have to hold them by now, not their pending slots
+		err = query.settle()
+		if err != nil {
+			return nil, err
+		}
+	}
 	rs, err = ExecDistinct(query, rs)
 	if err != nil {
 		return nil, err
